@@ -166,8 +166,8 @@ func (f *OrefaFile) Read(b []byte) (n int, err error) {
 		return 0, fs.ErrInvalid
 	}
 
-	f.mu.RLock()
-	defer f.mu.RUnlock()
+	f.mu.Lock()
+	defer f.mu.Unlock()
 
 	if f.name == "" {
 		return 0, fs.ErrInvalid
@@ -597,8 +597,8 @@ func (f *OrefaFile) Write(b []byte) (n int, err error) {
 		return 0, fs.ErrInvalid
 	}
 
-	f.mu.RLock()
-	defer f.mu.RUnlock()
+	f.mu.Lock()
+	defer f.mu.Unlock()
 
 	if f.name == "" {
 		return 0, fs.ErrInvalid
